@@ -71,9 +71,9 @@ May(k) == Cnt(k) < MaxRep
 \* ---------------------------------------------------------------- the alphabet
 P1 == 1
 Own1 == <<Own, 1>>
-SyncEv(k, src) == [e |-> "sync", p |-> P1, src |-> src, seq |-> (S0 + k) % 65536, two |-> k \in TwoStepSet,
+SyncEv(k, src) == [e |-> "sync", p |-> P1, src |-> src, seq |-> (S0 + k) % SeqMod, two |-> k \in TwoStepSet,
                    rx |-> Nm("t2", k), c |-> Nm("cs", k), w1 |-> Nm("w1", k), key |-> Nm("sync", k)]
-FupEv(k, src) == [e |-> "fup", p |-> P1, src |-> src, seq |-> (S0 + k) % 65536, w1 |-> Nm("w1", k), c |-> Nm("cf", k), key |-> Nm("fup", k)]
+FupEv(k, src) == [e |-> "fup", p |-> P1, src |-> src, seq |-> (S0 + k) % SeqMod, w1 |-> Nm("w1", k), c |-> Nm("cf", k), key |-> Nm("fup", k)]
 DrespEv(j, src, req) == [e |-> "dresp", p |-> P1, src |-> src, seq |-> j - 1, req |-> req, w4 |-> Nm("w4", j), c |-> Nm("cr", j), key |-> Nm("dresp", j)]
 
 Issued == st.nseq[P1].dreq       \* delay requests issued so far (ids 0 .. Issued-1)
@@ -100,9 +100,9 @@ Noise ==
   (IF "n_filter" \in Fam THEN
      {[e |-> "ann", p |-> P1, src |-> Parent, seq |-> env.aseq, g |-> GmP(2), steps |-> 0, dom |-> 1, noise |-> TRUE, key |-> "n_dom"],
       [e |-> "ann", p |-> P1, src |-> Parent, seq |-> env.aseq, g |-> GmP(2), steps |-> 0, sdo |-> 256, noise |-> TRUE, key |-> "n_sdo"],
-      [e |-> "sync", p |-> P1, src |-> Parent, seq |-> (S0 + 1) % 65536, two |-> FALSE, rx |-> "t2_9", c |-> "cs_9", w1 |-> "w1_9", ver |-> 1, noise |-> TRUE, key |-> "n_ver"],
-      [e |-> "sync", p |-> P1, src |-> Parent, seq |-> (S0 + 1) % 65536, two |-> FALSE, rx |-> "t2_9", c |-> "cs_9", w1 |-> "w1_9", dom |-> 7, noise |-> TRUE, key |-> "n_domsync"],
-      [e |-> "fup", p |-> P1, src |-> Parent, seq |-> (S0 + 1) % 65536, w1 |-> "w1_9", c |-> "cf_9", cut |-> 40, bad |-> TRUE, noise |-> TRUE, key |-> "n_cut"],
+      [e |-> "sync", p |-> P1, src |-> Parent, seq |-> (S0 + 1) % SeqMod, two |-> FALSE, rx |-> "t2_9", c |-> "cs_9", w1 |-> "w1_9", ver |-> 1, noise |-> TRUE, key |-> "n_ver"],
+      [e |-> "sync", p |-> P1, src |-> Parent, seq |-> (S0 + 1) % SeqMod, two |-> FALSE, rx |-> "t2_9", c |-> "cs_9", w1 |-> "w1_9", dom |-> 7, noise |-> TRUE, key |-> "n_domsync"],
+      [e |-> "fup", p |-> P1, src |-> Parent, seq |-> (S0 + 1) % SeqMod, w1 |-> "w1_9", c |-> "cf_9", cut |-> 40, bad |-> TRUE, noise |-> TRUE, key |-> "n_cut"],
       [e |-> "dresp", p |-> P1, src |-> Parent, seq |-> 0, req |-> Own1, w4 |-> "w4_9", c |-> "cr_9", mlen |-> 20, bad |-> TRUE, noise |-> TRUE, key |-> "n_mlen"],
       [e |-> "sig", p |-> P1, src |-> Parent, seq |-> 5, noise |-> TRUE, key |-> "n_sig"],
       [e |-> "mgmt", p |-> P1, src |-> Parent, seq |-> 5, noise |-> TRUE, key |-> "n_mgmt"]}
@@ -117,7 +117,7 @@ Noise ==
      \cup {DrespEv(j, Other, Own1) @@ [noise |-> TRUE] : j \in 1..NDelay}
      \cup {DrespEv(j, Parent, <<Own, 2>>) @@ [noise |-> TRUE] : j \in 1..NDelay}
      \cup {DrespEv(j, Parent, <<7, 1>>) @@ [noise |-> TRUE] : j \in 1..NDelay}
-     \cup {[e |-> "sync", p |-> P1, src |-> Parent, seq |-> (S0 + 1) % 65536, two |-> FALSE, rx |-> "t2_8", c |-> "cs_8", w1 |-> "w1_8",
+     \cup {[e |-> "sync", p |-> P1, src |-> Parent, seq |-> (S0 + 1) % SeqMod, two |-> FALSE, rx |-> "t2_8", c |-> "cs_8", w1 |-> "w1_8",
             chan |-> "g", noise |-> TRUE, key |-> "n_syncgen"]}
    ELSE {})
 
@@ -146,8 +146,8 @@ Allowed(ev) ==
 EnvStep(ev) ==
   [env EXCEPT !.cnt = IF ev.key \in {"ts", "bmca", "tann", "tsync", "trcpt", "tfilt", "tdreq", "so", "q", "annP", "annO"} THEN @
                       ELSE [k \in (DOMAIN @) \cup {ev.key} |-> IF k = ev.key THEN Cnt(k) + 1 ELSE @[k]],
-              !.aseq = IF ev.key = "annP" THEN (@ + 1) % 65536 ELSE @,
-              !.oseq = IF ev.key = "annO" THEN (@ + 1) % 65536 ELSE @]
+              !.aseq = IF ev.key = "annP" THEN (@ + 1) % SeqMod ELSE @,
+              !.oseq = IF ev.key = "annO" THEN (@ + 1) % SeqMod ELSE @]
 
 Strip(ev) == [k \in (DOMAIN ev) \ {"key"} |-> ev[k]]
 
@@ -243,10 +243,10 @@ EchoOK ==
 Echo == [][EchoOK]_vars
 SeqPlusOneOK ==
   \A f \in OutFrames(res') :
-     /\ f.t = "Announce" => (f.seq = st.nseq[f.src[2]].ann /\ st'.nseq[f.src[2]].ann = (f.seq + 1) % 65536)
-     /\ f.t = "Sync" => (f.seq = st.nseq[f.src[2]].sync /\ st'.nseq[f.src[2]].sync = (f.seq + 1) % 65536)
-     /\ f.t = "DelayReq" => (f.seq = st.nseq[f.src[2]].dreq /\ st'.nseq[f.src[2]].dreq = (f.seq + 1) % 65536)
-     /\ f.t = "PdelayReq" => (f.seq = st.nseq[f.src[2]].pdreq /\ st'.nseq[f.src[2]].pdreq = (f.seq + 1) % 65536)
+     /\ f.t = "Announce" => (f.seq = st.nseq[f.src[2]].ann /\ st'.nseq[f.src[2]].ann = (f.seq + 1) % SeqMod)
+     /\ f.t = "Sync" => (f.seq = st.nseq[f.src[2]].sync /\ st'.nseq[f.src[2]].sync = (f.seq + 1) % SeqMod)
+     /\ f.t = "DelayReq" => (f.seq = st.nseq[f.src[2]].dreq /\ st'.nseq[f.src[2]].dreq = (f.seq + 1) % SeqMod)
+     /\ f.t = "PdelayReq" => (f.seq = st.nseq[f.src[2]].pdreq /\ st'.nseq[f.src[2]].pdreq = (f.seq + 1) % SeqMod)
 SeqPlusOne == [][SeqPlusOneOK]_vars
 
 (***************************************************************************)
